@@ -332,6 +332,12 @@ func init() {
 								want = 1
 							}
 							okW := fi.Name == "objectCache.processNewSet" && fi.isCall(rhs, pathW+".buildProviderMap") != nil && len(n.Rhs) == 1 && i == want
+							if !okW && fi.Name == "objectCache.processNewSet" {
+								// through locals: m, s, errs := buildProviderMap(…); pset.providerMap = m
+								if d := fi.defOf(rhs); d != nil && d.idx == want && fi.isCall(d.rhs, pathW+".buildProviderMap") != nil {
+									okW = true
+								}
+							}
 							r.Check(okW, k, n.Pos(), "assigned from result %d of buildProviderMap in processNewSet", want)
 						}
 					case *ast.CompositeLit:
